@@ -12,30 +12,49 @@ type fieldConstraints struct {
 }
 
 func (check fieldConstraints) CheckFieldPreConstraints(r *FieldRequest, hnd *ValueHandle) (bool, error) {
-	t := r.Meta.Type()
 	if hnd.Val == nil {
 		return true, nil
 	}
+	if err := check.checkValue(hnd.Val, r.Meta.Type()); err != nil {
+		return false, err
+	}
+	return true, nil
+}
 
+func (check fieldConstraints) checkValue(v val.Value, t *meta.Type) error {
 	switch t.Format() {
-	case val.FmtString:
-		if err := check.checkString(hnd.Val.String(), t); err != nil {
-			return false, err
+	case val.FmtLeafRef, val.FmtLeafRefList:
+		// a leafref takes the values of the leaf it points at, restrictions included
+		target := t.Resolve()
+		if target == t || target.Format().Single() == val.FmtLeafRef {
+			return nil
 		}
-	case val.FmtStringList:
-		strs := hnd.Val.Value().([]string)
-		for _, s := range strs {
-			if err := check.checkString(s, t); err != nil {
-				return false, err
+		var err error
+		val.ForEach(v, func(_ int, item val.Value) {
+			if err == nil {
+				err = check.checkValue(item, target)
 			}
+		})
+		return err
+	}
+	if t.Format().Single() == val.FmtString {
+		// v is a single value or a list whatever t says: a leafref may point at a leaf-list
+		var err error
+		val.ForEach(v, func(_ int, item val.Value) {
+			if err == nil {
+				err = check.checkString(item.String(), t)
+			}
+		})
+		if err != nil {
+			return err
 		}
 	}
 	if t.Format().IsNumeric() {
-		if err := check.checkRange(hnd.Val, t); err != nil {
-			return false, err
+		if err := check.checkRange(v, t); err != nil {
+			return err
 		}
 	}
-	return true, nil
+	return nil
 }
 
 func (check fieldConstraints) checkString(s string, t *meta.Type) error {
